@@ -23,6 +23,7 @@ Names are identifier tokens (`[A-Za-z0-9_]+`); values: `n` None, `b0`/`b1`, `i<i
     config mx <item> …      P:<name>:<bases|~>:<slots|-|~>:<keys|~>:<flags>     plain class (flags: n = __new__, i = __init__, - none)
                             M:<name>:<bases|~>:<as_mixins|-|~>:<slots|-|~>:<keys|~>:<flags>   class with metaclass MixableMeta
                             I:<name>   instantiate (the calls made)      L:<name>   listing
+                            (an item that refers to a class whose definition failed answers `undef`)
 -/
 namespace Drv.Config
 open Py Drv Ombott.Config
@@ -205,20 +206,23 @@ def mxStep (cs : MClasses) (item : String) : Option (MClasses × String) :=
   match item.splitOn ":" with
   | ["P", name, bases, slots, keys, flags] =>
     if (findM cs name).isSome then none else
+    if (dotList bases).any (fun b => (findM cs b).isNone) then some (cs, "undef") else
     some (res (plainDefine cs name (dotList bases) (labels name (dotList keys)) (optList slots)
       (if flags.contains 'n' then some name else none) (if flags.contains 'i' then some name else none)))
   | ["M", name, bases, asm, slots, keys, flags] =>
     if (findM cs name).isSome then none else
+    if (dotList bases ++ (optList asm).getD []).any (fun b => (findM cs b).isNone) then some (cs, "undef") else
     let attrs := (match optList asm with | some _ => labels name ["_as_mixins"] | none => []) ++ labels name (dotList keys)
     some (res (mixableDefine cs name (dotList bases)
       { attrs := attrs, slots := optList slots, asMixins := (optList asm).getD [] }
       (if flags.contains 'n' then some name else none) (if flags.contains 'i' then some name else none)))
   | ["I", name] =>
+    if (findM cs name).isNone then some (cs, "undef") else
     (findM cs name).map fun c =>
       match instantiate cs c with
       | .ok t => (cs, if t.isEmpty then "~" else ">".intercalate t)
       | .error e => (cs, "e" ++ e.name)
-  | ["L", name] => (findM cs name).map fun c => (cs, showM c)
+  | ["L", name] => some (match findM cs name with | some c => (cs, showM c) | none => (cs, "undef"))
   | _ => none
 
 def mxRun : MClasses → List String → Option (List String)
